@@ -74,3 +74,16 @@ package stack
 //@ func (*Route).RemoveWaker props C07
 //@   trusted
 //@   modifies everything()
+
+// ASSUMED: the addresses held in a route are IPv4 or IPv6 addresses (4 or 16 bytes), so the
+// pseudo-header sum of a route is always defined.
+//@ func (*Route).PseudoHeaderChecksum props C07 C06 C11
+//@   trusted
+//@   ensures oc16(uint64(result)) == oc16(wsum16(r.LocalAddress, 0, len(r.LocalAddress)) + wsum16(r.RemoteAddress, 0, len(r.RemoteAddress)) + uint64(uint8(protocol)))
+
+//@ func (*Stack).FindRoute props C07 C06 C11
+//@   trusted
+//@   modifies everything()
+
+//@ func (*Stack).CheckLocalAddress props C07 C06 C11
+//@   trusted
